@@ -427,7 +427,11 @@ $ls->onError(function ($request, $response, $error) {
     $response->status(500);
     $response->write('error=' . $error);
 });
-$lg = function ($r, $w) {
+$c11defaults = ['limit' => 10, 'tags' => ['base'], 'seen' => [], 'nest' => ['a' => ['x']]];
+$c11flat = ['f0'];
+$c11label = 'L';
+$c11count = 5;
+$lg = function ($r, $w) use ($c11defaults, $c11flat, $c11label, $c11count) {
     $kind = $r->header('X-Kind');
     $tok = $r->header('X-Tok');
     $name = $r->header('X-Gate-Name');
@@ -486,6 +490,22 @@ $lg = function ($r, $w) {
         $w->write(';after=' . $tok);
         return;
     }
+    if ($kind == 'capl') {
+        // by-value captures of the handler closure are locals of this call
+        $c11defaults['tags'][] = $tok;
+        $c11defaults['nest']['a'][] = $tok;
+        $c11defaults['limit'] = $tok;
+        $c11flat[] = $tok;
+        $c11flat[0] = 'h' . $tok;
+        $c11label .= '-' . $tok;
+        $c11count++;
+        verif_gate($name);
+        $c11defaults['seen'][] = $r->userAgent();
+        $c11flat[] = 'z';
+        $c11count++;
+        $w->write('capl=' . implode(',', $c11defaults['tags']) . ';' . implode(',', $c11defaults['nest']['a']) . ';' . $c11defaults['limit'] . ';' . implode(',', $c11defaults['seen']) . ';' . implode(',', $c11flat) . ';' . $c11label . ';' . $c11count);
+        return;
+    }
     verif_note('unknown kind ' . $kind);
 };
 $ls->get('/lgate/{id}', $lg);
@@ -505,4 +525,63 @@ $lm->middleware(new C11Mw(), 2);
 $lm->get('/lgate/{id}', $lg);
 $lm->post('/lgate/{id}', $lg);
 verif_server('lgatemw', $lm);
+
+// shape 7: handler, closure middleware and a start-up helper closure that capture arrays
+// (flat, nested, keyed) and scalars BY VALUE and write to them: every call works on its own
+// copies
+$c11helper = function ($tok, $n) use ($c11flat, $c11count) {
+    for ($i = 0; $i < $n; $i++) { $c11flat[] = $tok . $i; $c11count++; }
+    $c11flat[0] = 'q' . $tok;
+    return implode(',', $c11flat) . '#' . $c11count;
+};
+$cs = new Server('127.0.0.1', 0);
+$cs->middleware(function ($request, $response, $next) use ($c11flat, $c11label, $c11count, $c11defaults) {
+    $tok = $request->header('X-Tok');
+    $c11flat[] = $tok;
+    $c11flat[0] = 'm' . $tok;
+    $c11label .= '+' . $tok;
+    $c11count++;
+    $c11defaults['nest']['m'] = [$tok];
+    $c11defaults['tags'][] = 'mw' . $tok;
+    $response->header('X-Mw-Cap', implode(',', $c11flat) . '|' . $c11label . '|' . $c11count . '|' . implode(',', $c11defaults['tags']));
+    verif_yield();
+    $next($request, $response);
+    $c11flat[] = 'after';
+    $c11count += 2;
+    $response->write("\nmw-after=" . implode(',', $c11flat) . '|' . $c11label . '|' . $c11count . '|' . implode(',', $c11defaults['nest']['m']));
+}, 1);
+$h7 = function ($r, $w) use ($c11defaults, $c11flat, $c11label, $c11count, $c11helper) {
+    $tok = $r->header('X-Tok');
+    $n = (int)$r->input('n');
+    $c11defaults['limit'] = $n;
+    $c11defaults['tags'][] = $tok;
+    $c11defaults['nest']['a'][] = $r->pathValue('id');
+    $c11defaults['nest']['b'] = [$r->input('t')];
+    for ($i = 0; $i < $n; $i++) { $c11defaults['seen'][] = $tok . $i; verif_yield(); }
+    $c11flat[] = $tok;
+    $c11flat[0] = 'h' . $tok;
+    $c11label .= '-' . $tok;
+    $c11count++;
+    verif_sync($tok);
+    verif_gate($r->header('X-Gate-Name'));
+    $c11defaults['tags'][] = $r->userAgent();
+    $c11flat[] = 'late';
+    $c11label = $c11label . '!';
+    $c11count = $c11count + $n;
+    $out = [];
+    $out[] = 'limit=' . $c11defaults['limit'];
+    $out[] = 'tags=' . implode(',', $c11defaults['tags']);
+    $out[] = 'nest=' . implode(',', $c11defaults['nest']['a']) . '/' . implode(',', $c11defaults['nest']['b']);
+    $out[] = 'seen=' . count($c11defaults['seen']) . ':' . implode(',', $c11defaults['seen']);
+    $out[] = 'flat=' . implode(',', $c11flat);
+    $out[] = 'label=' . $c11label;
+    $out[] = 'count=' . $c11count;
+    $out[] = 'helper=' . $c11helper($tok, $n);
+    $w->header('X-Tags', implode(',', $c11defaults['tags']));
+    $w->status(230 + count($c11defaults['tags']) + count($c11flat));
+    $w->write(implode("\n", $out));
+};
+$cs->get('/s7/{id}', $h7);
+$cs->post('/s7/{id}', $h7);
+verif_server('cap', $cs);
 `
